@@ -41,6 +41,8 @@ def run(ctx):
         for _ in range(n):
             tpl, _s = rng.choice(tpls)
             s = rng.choice(pool)
+            if "community-map" in tpl and ":" in s:      # in this line form the community name ends at the first ':' (name:index)
+                tpl = "snmp-server community {} RO"
             if s.startswith(("$9$", "$1$")) and rng.random() < 0.35:
                 tpl = rng.choice(KEYLESS)          # a line no keyword pattern recognises: only the hash-shaped catch-all applies
             enc = rng.choice(secretlib.ENCLOSE) if rng.random() < 0.4 else ("", "")
